@@ -1,7 +1,7 @@
 (* C11 driver: runs the extracted Namespace model on cases read from stdin.
    encoding: str = dot-separated decimal code points, 'e' for ""; key/path = comma-separated strs, '-' for [];
              type = <key>|<short>|<major>|<minor>
-   input:   CASE <es:0|1> <ext> <stem> <outdir> <perm mode> <cperm mode>
+   input:   CASE <es:0|1> <ext> <stem> <outdir> <perm mode> <cperm mode> <eqkey: 0 = same (current code), 1 = strop (before fix f08a0a1)>
             S <name> <stropped>          (table of Language.filter_id(name, "path"); identity elsewhere)
             T <type>
             GO
@@ -34,10 +34,11 @@ let order prio mode l =
   | 3 -> List.rev (List.sort compare l)
   | _ -> List.filter (fun k -> List.mem k l) prio @ List.filter (fun k -> not (List.mem k prio)) l
 
-let run es ext stem outdir pm cm table prio types =
+let run es ext stem outdir pm cm qf table prio types =
   let strop x = match List.assoc_opt x table with Some y -> y | None -> x in
   let perm = order prio pm and cperm = order prio cm in
-  let (s, root) = build strop es ext outdir perm types in
+  let ek = if qf then strop else same in
+  let (s, root) = build strop ek es ext outdir perm types in
   print_string ("ROOT " ^ show_key root ^ "\n");
   print_string ("FOLD " ^ (if ns_fold strop types then "1" else "0") ^ "\n");
   List.iter (fun (k, n) ->
@@ -55,7 +56,7 @@ let run es ext stem outdir pm cm table prio types =
   List.iter (fun (k, _) ->
       List.iter (fun t ->
           Printf.printf "FIND %s %s %s\n" (show_key k) (show_ty t)
-            (match find_output_path strop cperm s k t with
+            (match find_output_path ek cperm s k t with
              | Some p -> show_key p ^ " " ^ show_key (relative_to_outdir outdir p)
              | None -> "NONE NONE")) types) s;
   List.iter (fun t -> Printf.printf "INC %s %s\n" (show_ty t) (show_key (include_path strop es ext t))) types;
@@ -67,16 +68,16 @@ let () =
     while true do
       let line = String.trim (input_line stdin) in
       match String.split_on_char ' ' line with
-      | ["CASE"; es; ext; stem; outdir; pm; cm] ->
-        cfg := Some (es = "1", parse_str ext, parse_str stem, parse_key outdir, int_of_string pm, int_of_string cm);
+      | ["CASE"; es; ext; stem; outdir; pm; cm; qf] ->
+        cfg := Some (es = "1", parse_str ext, parse_str stem, parse_key outdir, int_of_string pm, int_of_string cm, qf = "1");
         table := []; types := []; prio := []
       | ["S"; a; b] -> table := (parse_str a, parse_str b) :: !table
       | ["T"; t] -> types := parse_ty t :: !types
       | ["P"; k] -> prio := parse_key k :: !prio
       | ["GO"] ->
         (match !cfg with
-         | Some (es, ext, stem, outdir, pm, cm) ->
-           (try run es ext stem outdir pm cm !table (List.rev !prio) (List.rev !types)
+         | Some (es, ext, stem, outdir, pm, cm, qf) ->
+           (try run es ext stem outdir pm cm qf !table (List.rev !prio) (List.rev !types)
             with e -> print_string ("ERR " ^ Printexc.to_string e ^ "\nEND\n"))
          | None -> print_string "ERR no case\nEND\n")
       | [""] -> ()
